@@ -789,8 +789,11 @@ def detrend_1d(arr: np.ndarray) -> np.ndarray:
     if m == 0:
         msg = "Input array must be non-empty."
         raise ValueError(msg)
+    # Promote to a floating dtype (float32/float64 are kept as they are), so that
+    # integer input cannot wrap around in the trend or in the subtraction.
+    data = arr * np.float32(1.0)
     if m == 1:
-        return np.zeros(1, dtype=arr.dtype)
+        return np.zeros(1, dtype=data.dtype)
 
     # Closed forms of sum(i) and sum(i**2), evaluated in float64: the integer
     # product m * (m - 1) * (2 * m - 1) overflows int64 for m > 1664511.
@@ -800,14 +803,14 @@ def detrend_1d(arr: np.ndarray) -> np.ndarray:
     x_y_sum = 0.0
 
     for i in range(m):
-        y_sum += arr[i]
-        x_y_sum += i * arr[i]
+        y_sum += data[i]
+        x_y_sum += i * data[i]
 
     slope = (m * x_y_sum - x_sum * y_sum) / (m * x_sq_sum - x_sum**2)
     intercept = (y_sum - slope * x_sum) / m
-    trend = slope * np.arange(m, dtype=arr.dtype) + intercept
+    trend = slope * np.arange(m) + intercept
 
-    return arr - trend.astype(arr.dtype)
+    return data - trend.astype(data.dtype)
 
 
 @njit(cache=True, fastmath=True)
